@@ -555,10 +555,12 @@ pub fn run_random<C: KeyColl>(tr: &mut Trace, cfg: &RandCfg) {
     let mut s: KeySession<C> = KeySession::new(tr, cfg.keys, caps[(rng.next() % 5) as usize], 7);
     let mut in_seg = 0u64;
     let mut done = 0u64;
+    let mut clock = 0i32;
     while done < cfg.steps && !s.tr.full() {
         if in_seg >= cfg.seg_len {
             // end the segment with an export (the collection is consumed), then start afresh
-            let t = s.now + rng.range(0, 2) as i32;
+            let t = clock.max(s.now) + rng.range(0, 2) as i32;
+            clock = 0;
             s.apply(&KOp::Export { t }, 0);
             s.reset(caps[(rng.next() % 5) as usize]);
             in_seg = 0;
@@ -567,10 +569,16 @@ pub fn run_random<C: KeyColl>(tr: &mut Trace, cfg: &RandCfg) {
         }
         in_seg += 1;
         done += 1;
-        if rng.chance(1, 4) {
-            s.now += rng.range(0, 2) as i32;
+        // the caller's clock: it only reaches the collection as the argument of a call
+        if s.now < clock {
+            // (a call without a time argument came in between)
+        } else {
+            clock = s.now;
         }
-        let t = s.now;
+        if rng.chance(1, 4) {
+            clock += rng.range(0, 2) as i32;
+        }
+        let t = clock;
         let k = rng.range(0, cfg.keys as i64 + 1) as i32;
         let arm = if cfg.inject && rng.chance(1, 5) { rng.range(1, 6) as u64 } else { 0 };
         let alive = match rng.range(0, 19) {
@@ -591,6 +599,7 @@ pub fn run_random<C: KeyColl>(tr: &mut Trace, cfg: &RandCfg) {
             17 => s.apply(&KOp::Empty, 0),
             18 => {
                 if rng.chance(1, 6) {
+                    clock = 0; // the clock may restart after a clear
                     s.apply(&KOp::Clear, 0)
                 } else {
                     s.apply(&KOp::Le { t, p: k }, arm)
@@ -601,6 +610,7 @@ pub fn run_random<C: KeyColl>(tr: &mut Trace, cfg: &RandCfg) {
         if !alive {
             s.reset(caps[(rng.next() % 5) as usize]);
             in_seg = 0;
+            clock = 0;
         }
     }
 }
@@ -646,6 +656,58 @@ pub fn run_replay<C: KeyColl>(tr: &mut Trace, text: &str, keys: i32) {
                 }
             }
             _ => {}
+        }
+    }
+}
+
+/// C19: capacity of the exported vector against the number of entries, for every size 0..=64 in
+/// three insertion orders and then for powers of ten.  The driver stops growing once a capacity
+/// is far beyond any linear bound (a memory safety cut-off for the sandbox, not a verdict: the
+/// event that triggered it is logged and judged by TLC like all others).
+pub fn run_sizes<C: KeyColl>(tr: &mut Trace, max: u64, seed: u64) {
+    let mut rng = Rng::new(seed);
+    let mut sizes: Vec<(u64, &'static str)> = vec![];
+    for n in 0..=64u64 {
+        for o in ["asc", "desc", "shuffled"] {
+            sizes.push((n, o));
+        }
+    }
+    let mut n = 100u64;
+    while n <= max {
+        for o in ["asc", "desc", "shuffled"] {
+            sizes.push((n, o));
+            sizes.push((n + n / 2 + 1, o));
+        }
+        n *= 10;
+    }
+    tr.line(&format!("\"ev\":\"reset\",\"coll\":\"{}\",\"cap\":0", C::NAME));
+    for (n, order) in sizes {
+        let mut keys: Vec<i32> = (1..=n as i32).collect();
+        match order {
+            "desc" => keys.reverse(),
+            "shuffled" => rng.shuffle(&mut keys),
+            _ => {}
+        }
+        let mut c = C::make(0);
+        for k in &keys {
+            c.insert(inst::probe(*k, 10), *k, 0);
+        }
+        let desc = format!("\"op\":\"exportn\",\"n\":{},\"order\":\"{}\"", n, order);
+        tr.pre(&format!("{},\"out\":\"aborted\"", desc));
+        let o = observe(0, move || {
+            let v = c.export(0);
+            let sorted = v.windows(2).all(|w| w[0] < w[1]);
+            (v.capacity(), v.len(), sorted)
+        });
+        let mut extra = String::new();
+        let mut stop = false;
+        if let Outcome::Ok((cap, len, sorted)) = &o.out {
+            let _ = write!(extra, ",\"vcap\":{},\"len\":{},\"sorted\":{}", cap, len, *sorted as u8);
+            stop = *cap as u64 > 64 * n + 4096;
+        }
+        tr.line(&format!("\"ev\":\"op\",{}{},{}", desc, extra, out_fields(&o)));
+        if stop && n > 64 {
+            break;
         }
     }
 }
